@@ -395,9 +395,26 @@ fn slot_reuse_scenario(rng: &mut Rng, p: &Profile) -> History {
     History { profile: p.name.clone(), steps, end: rng.below(2) as u8 }
 }
 
+/// C02: many sources ready at once (up to the poller's batch size of 1024): all of them are served by one dispatch
+fn many_ready_scenario(rng: &mut Rng, p: &Profile, n: usize) -> History {
+    let mut steps = Vec::new();
+    for i in 0..n {
+        let md = *rng.pick(&[Md::Level, Md::Level, Md::Edge, Md::OneShot]);
+        let kind = if i % 7 == 0 { Kind::Ping } else { Kind::Gen { fd: FdKind::Eventfd, int: Int::Read, md } };
+        steps.push(Step::Op(Op::Insert(Box::new(SourceSpec { kind, lifecycle: false, prog: vec![], fault: None, via_insert: true, bad_fd: None, ready_at_insert: true }))));
+    }
+    steps.push(Step::Dispatch(0));
+    steps.push(Step::Dispatch(0));
+    History { profile: p.name.clone(), steps, end: 0 }
+}
+
 pub fn gen_history(rng: &mut Rng, p: &Profile) -> History {
     if p.name == "C01" && rng.chance(1, 10) {
         return slot_reuse_scenario(rng, p);
+    }
+    if p.name == "C02" && p.max_sources > 24 && rng.chance(1, 400) {
+        let n = *rng.pick(&[300usize, 700, 1000, 1020]);
+        return many_ready_scenario(rng, p, n);
     }
     let n = rng.range(p.steps.0, p.steps.1);
     let mut steps = Vec::new();
